@@ -138,6 +138,11 @@ def matcher_agreement(ctx, n):
 
 def mon(sc, res):
     fails = M.m_c12_lists(sc, res)
+    if sc.get("profile") == "c12-dh-cli":
+        for st in res["steps"]:
+            op, io_ = st["op"], st["impl"]
+            if io_ is not None and op["op"] in ("verifydh", "verify", "diff") and (io_["exc"] is not None or io_["exit"] != 0):
+                fails.append({"what": f"{op['op']} {json.dumps({k: v for k, v in op.items() if k != 'op'})} exits {io_['exit']} {io_['exc'] or ''}: the only change since sealing is a new entry that the pattern given on the command line matches", "replay": sc})
     for st in res["steps"]:
         op, io_ = st["op"], st["impl"]
         if io_ is not None and io_["exc"] is None and op["op"] in ("create", "verify", "diff") and not op.get("sf"):
@@ -170,6 +175,17 @@ def late_dir_pattern_scenarios():
     return out
 
 
+def cli_pattern_dh_scenarios():
+    """a pattern given on the command line of verify -dh hides what it matches there as well: a file that appeared after
+    sealing and matches it does not count"""
+    out = []
+    for pat, newf in (("*.bak", "s/new.bak"), ("scratch", "scratch/x.bin"), ("*.bak", "new.bak")):
+        t = {"a.txt": "a", "s/b.txt": "b", "s/n/c.txt": "c"}
+        out.append({"profile": "c12-dh-cli", "root": "root", "tree": t, "ops": [{"op": "create", "at": "", "h": ["md5"], "now": "2026-03-01 12:00:01"}, {"op": "write", "path": newf, "data": "appeared later"},
+                    {"op": "verifydh", "at": "", "i": [pat]}, {"op": "verify", "at": "", "i": [pat]}, {"op": "diff", "at": "", "i": [pat]}, {"op": "verifydh", "at": "", "ii": [pat]}]})
+    return out
+
+
 def fixed_scenarios():
     t = {"a.txt": "a", "x.tmp": "t", "s/b.txt": "b", "s/.DS_Store": "junk", ".DS_Store": "junk", "s/n/c.txt": "c"}
     out = []
@@ -182,7 +198,7 @@ def fixed_scenarios():
 
 
 def run(ctx):
-    scs = fixed_scenarios() + late_dir_pattern_scenarios() + _scn.standard_pool(ctx, ctx.scale(60, 1000), ctx.scale(25, 400))
+    scs = fixed_scenarios() + late_dir_pattern_scenarios() + cli_pattern_dh_scenarios() + _scn.standard_pool(ctx, ctx.scale(60, 1000), ctx.scale(25, 400))
     for k, sc in enumerate(scs):
         if k % 3 == 0 and "s/.DS_Store" not in sc["tree"]:
             sc["tree"][".DS_Store"] = "finder junk"
